@@ -7,6 +7,7 @@ import (
 	"sort"
 	"strings"
 	"sync"
+	"time"
 )
 
 // validateCalls runs Trace_Decode over batches of recorded calls, in
@@ -131,4 +132,127 @@ func runCorpus(c *Ctx) {
 	}
 	fmt.Println("calls", len(calls), "mismatches", len(mm), "states", c.States)
 	c.cleanup()
+}
+
+// development aid: validate generated streams
+func runGen(c *Ctx) {
+	p := exportProfile()
+	sch := exportSchema()
+	rng := newRng(c.Seed)
+	g := &generator{rng: rng, p: p, sch: sch, k: defaultKnobs()}
+	var calls []*Call
+	n := c.pick(300, 3000)
+	for i := 0; i < n; i++ {
+		s := g.Generate()
+		calls = append(calls, p.runCall(i+1, "decode", s.Bytes(), plain, CallOpts{UF: 1, UM: 1}, true))
+	}
+	mm := c.validateCalls(p, sch, calls, 14)
+	agg := map[string]int{}
+	ex := map[string]Mismatch{}
+	for _, m := range mm {
+		k := fmt.Sprintf("%v m=%v s=%v kf=%v", m.Rec["what"], m.Rec["m"], m.Rec["s"], m.Rec["kf"])
+		agg[k]++
+		ex[k] = m
+	}
+	for k, v := range agg {
+		fmt.Println(v, k, ex[k].Rec, ex[k].Call.Ret.ErrText)
+		if os.Getenv("VERIF_EXPLAIN") != "" {
+			mi, _ := ex[k].Rec["m"].(float64)
+			ii, _ := ex[k].Rec["idx"].(float64)
+			if ii == 0 {
+				ii = 1
+			}
+			explainStream(p, ex[k].Call.raw, int(mi), int(ii))
+		}
+	}
+	fin := map[string]int{}
+	for _, cl := range calls {
+		fin[cl.Final+":"+cl.Why]++
+	}
+	fmt.Println(fin)
+	fmt.Println("calls", len(calls), "mismatches", len(mm), "states", c.States, "wall", time.Since(c.Start))
+	c.cleanup()
+}
+
+// debugging aid: explain a stream record by record
+func explainStream(p *Profile, b []byte, wantM, wantIdx int) {
+	count := 0
+	if len(b) < 12 {
+		return
+	}
+	hs := int(b[0])
+	pos := hs
+	end := hs + int(uint32(b[4])|uint32(b[5])<<8|uint32(b[6])<<16|uint32(b[7])<<24)
+	type dd struct {
+		m    int
+		arch byte
+		f    []FieldDef
+		dev  int
+	}
+	defs := map[int]*dd{}
+	for pos < end && pos < len(b) {
+		h := b[pos]
+		switch {
+		case h&0x80 != 0 || h&0x40 == 0:
+			l := int(h & 0x0F)
+			if h&0x80 != 0 {
+				l = int(h>>5) & 3
+			}
+			d := defs[l]
+			if d == nil {
+				fmt.Printf("@%d data local %d: no def\n", pos, l)
+				return
+			}
+			show := false
+			if d.m == wantM {
+				count++
+				show = count == wantIdx
+			}
+			if show {
+				fmt.Printf("@%d data hdr=%#x local %d m=%d arch=%d:", pos, h, l, d.m, d.arch)
+			}
+			q := pos + 1
+			for _, f := range d.f {
+				if q+int(f.Size) > len(b) {
+					break
+				}
+				if show {
+					fmt.Printf(" f%d[%#x/%d]=%v", f.Num, f.Base, f.Size, b[q:q+int(f.Size)])
+				}
+				q += int(f.Size)
+			}
+			if show {
+				fmt.Printf(" dev=%d\n", d.dev)
+			}
+			pos = q + d.dev
+		default:
+			l := int(h & 0x0F)
+			if pos+6 > len(b) {
+				return
+			}
+			arch := b[pos+2]
+			m := int(b[pos+3]) | int(b[pos+4])<<8
+			if arch == 1 {
+				m = int(b[pos+4]) | int(b[pos+3])<<8
+			}
+			nf := int(b[pos+5])
+			d := &dd{m: m, arch: arch}
+			q := pos + 6
+			for i := 0; i < nf && q+3 <= len(b); i++ {
+				d.f = append(d.f, FieldDef{b[q], b[q+1], b[q+2]})
+				q += 3
+			}
+			if h&0x20 != 0 && q < len(b) {
+				nd := int(b[q])
+				q++
+				for i := 0; i < nd && q+3 <= len(b); i++ {
+					d.dev += int(b[q+1])
+					q += 3
+				}
+			}
+			defs[l] = d
+			_ = l
+			pos = q
+		}
+	}
 }
